@@ -402,6 +402,30 @@ let register (reg : string -> (string list -> string) -> unit) =
         | "hexadecimal" -> NumLit.hexadecimal_number b
         | _ -> NumLit.decimal_number b)
     | _ -> "BADARGS");
+  reg "jsstr" (function [t; lit] -> hexe (StrLit.minify_string (hexd lit) (t = "1")) | [t] -> hexe (StrLit.minify_string [] (t = "1")) | _ -> "BADARGS");
+  (* the statement of the string-value theorem evaluated on one literal: valid input => output is a literal of the chosen
+     delimiter, valid (also in strict-mode code when the input was), with the same value *)
+  reg "jsstrv" (function [t; lit] ->
+      let l = hexd lit in
+      let body l = match l with [] -> None | q :: r -> (match Stdlib.List.rev r with q2 :: rb when q2 = q -> Some (q, Stdlib.List.rev rb) | _ -> None) in
+      (match body l with
+       | None -> "ok"
+       | Some (q, b) ->
+         if q = z_of_int 96 then "ok" else
+         (match StrLitSpec.decode true q b with
+          | None -> "ok"
+          | Some v ->
+            let out = StrLit.minify_string l (t = "1") in
+            (match body out with
+             | None -> "BAD-output-shape"
+             | Some (q', b') ->
+               let bt = z_of_int 96 in
+               let strict_in = StrLitSpec.decode false q b <> None in
+               (match StrLitSpec.decode (q' <> bt) q' b' with
+                | None -> "BAD-output-invalid"
+                | Some v' -> if v <> v' then "BAD-value"
+                             else if strict_in && StrLitSpec.decode false q' b' = None then "BAD-strict" else "ok"))))
+    | _ -> "ok");
   reg "jsstmtr" (function [sx] -> jsstmt_case ~readback:true "1" sx | _ -> "BADARGS");
   reg "jsstmtp" (function [sx] -> jsstmt_case ~print:true "1" sx | _ -> "BADARGS");
   reg "jsrw0" (function [sx] -> jsprint_case_gen ~top:PrintModel.coq_OpExpr true sx | _ -> "BADARGS");
